@@ -29,7 +29,8 @@ example : Gen.C30.shaBeforeCompression = true ∧ Gen.C30.serverPointerHasSha = 
 example : Gen.C30.pointerTests = ["batch.num_rows != 0 -> False", "custom_metadata is None -> False",
     "custom_metadata.get(LOCATION_KEY) is None -> False", "return custom_metadata.get(LOG_LEVEL_KEY) is None"] := by decide
 example : Gen.C30.classifyTests = ["data if custom_metadata is None", "data if batch.num_rows != 0",
-    "data if level_bytes is None or message_bytes is None", "raise if level_str == Level.EXCEPTION.value", "return True"] := by decide
+    "data if level_bytes is None or message_bytes is None", "raise if level_str == Level.EXCEPTION.value",
+    "ignored if Level(level_str) raises ValueError", "return True"] := by decide
 example : Gen.C30.wireCallSites = ["_flush_collector:maybe_externalize_collector",
     "_read_batch_with_log_check:resolve_external_location", "_read_header_batch:resolve_external_location",
     "_read_request:resolve_external_location", "_write_result_batch:maybe_externalize_batch",
@@ -60,7 +61,7 @@ inductive Cls where
   | data
   | log (l : Log)
   | exc (e : Ev)                     -- EXCEPTION level: `_dispatch_log_or_error` raises RpcError
-  | badLevel                         -- `Level(level_str)` raises ValueError
+  | ignored                          -- a level this client does not know: consumed, no callback
 deriving Repr, DecidableEq
 
 /-- `_dispatch_log_or_error` as a classifier -/
@@ -73,7 +74,7 @@ def classify (b : WBatch) : Cls :=
     | some lv, some msg =>
       if lv = Gen.C30.exceptionLevel then .exc (.error (m.excType.getD lv) msg m.kind)
       else if Gen.C30.logLevels.contains lv then .log ⟨lv, msg, m.extra⟩
-      else .badLevel
+      else .ignored
     | _, _ => .data
 
 /-- `fetched_cm is not None and fetched_cm.get(LOCATION_KEY) is not None` -/
@@ -116,7 +117,6 @@ inductive Reject where
   | arrowInvalid
   | loop                             -- "Redirect loop detected": a batch inside carries vgi_rpc.location
   | rpcError (e : Ev)
-  | badLevel
   | noData
   | multiple (n : Nat)
   | schemaMismatch
@@ -133,7 +133,7 @@ def scan : List WBatch → Tail → Except Reject (List Log × List WBatch)
     if hasLocation b then .error .loop else
     match classify b with
     | .exc e => .error (.rpcError e)
-    | .badLevel => .error .badLevel
+    | .ignored => scan r t
     | .log l =>
       match scan r t with
       | .ok (ls, ds) => .ok (l :: ls, ds)
